@@ -172,7 +172,12 @@ def run_case(case, rec):
                         if dump1 != ref_dump:
                             rec.violation('route-differs', f'route {name} stores something else than route xml: '
                                           + str(dbdump.first_difference(ref_dump, dump1)))
-                    d = diff(ref_obs, obs)
+                    if 'collection' in name:
+                        # packages of a collection are added in directory order: status/definition of a shared
+                        # ILI come from whichever lexicon introduced it first (ILI inventory, cross-lexicon order)
+                        d = diff(_mask_ili(ref_obs), _mask_ili(obs))
+                    else:
+                        d = diff(ref_obs, obs)
                     if d:
                         rec.violation('route-differs:' + norm_path(d[0]), f'route {name} vs xml: ' + fmt(d))
                 # the same route again, then another route on top: nothing may change
@@ -233,3 +238,14 @@ def ModelDB_lex_after(res, n):
     for _ in range(n):
         m.add_resource(res)
     return m.lex
+
+
+def _mask_ili(obs_by_spec):
+    import copy
+    out = copy.deepcopy(obs_by_spec)
+    for o in out.values():
+        for d in o['synsets'].values():
+            if isinstance(d, dict) and d.get('ili') and d['ili'][0] is not None:
+                d['ili'] = [d['ili'][0]]
+        o['ilis'] = sorted(([i[0]] if i and i[0] is not None else i for i in o['ilis']), key=str)
+    return out
